@@ -10,6 +10,7 @@
     replace   <ss> <i> <c> IND(pre) IND(post)
     destroy   <ss> <idx> IND(pre) IND(post)
     cse       <ss> IND(pre) IND(post)
+    incage    <ss> IND(pre) IND(post)
     trandom   <ss> <pl> <k> IND^k
     tmutation <ss> <pl> <zero?> <k> IND^k(pre) IND^k(post) <n>
     tcrossover <ss> <k> IND^k(lhs) IND^k(rhs) IND^k(post)
@@ -173,6 +174,12 @@ def runOp (tbl : List (Nat × SymSet)) (op : String) : PM String := do
     let f := chkWF "wf-pre" ss pre []
     let f := chk "index-inside" (decide (idx < pre.rows)) f
     let f := chk "step" (decide (DestroyStep ss pre idx post)) f
+    finish (chkWF "wf-post" ss post f)
+  | "incage" =>
+    let pre ← parseInd ss
+    let post ← parseInd ss
+    let f := chkWF "wf-pre" ss pre []
+    let f := chk "step" (decide (IncAgeStep pre post)) f
     finish (chkWF "wf-post" ss post f)
   | "cse" =>
     let pre ← parseInd ss
